@@ -84,7 +84,7 @@ func (fr *frame) binop(op token.Token, t types.Type, ty types.Type, x, y value) 
 	case b.Info()&types.IsString != 0:
 		switch op {
 		case token.ADD:
-			return concretize(strConcat(tx, tyy), t)
+			return concretize(fr.nameTerm(strConcat(tx, tyy)), t)
 		case token.LSS:
 			return boolValue(strLt(tx, tyy))
 		case token.LEQ:
@@ -590,7 +590,7 @@ func (fr *frame) slice(instr *ssa.Slice, x, lo, hi, max value) value {
 		if !fr.decideValue(boolValue(ok)) {
 			panic(targetPanic{v: iface{t: rtErrType, v: "runtime error: slice bounds out of range (symbolic)"}, pos: fr.pos(instr.Pos())})
 		}
-		return concretize(strSubstr(s, l, intSub(h, l)), types.Typ[types.String])
+		return fr.strV(strSubstr(s, l, intSub(h, l)))
 	}
 
 	var Len, Cap int
